@@ -4,6 +4,11 @@ import os
 PARAM = None      # per-obligation concrete parameter (node kind, builtin name, template, ...)
 EXCLUDES = []     # known-finding exclusion predicates (python expressions over the harness arguments)
 TWIN = False      # reachability-twin mode: done() raises
+TIER = os.environ.get("SQV_TIER", "quick")   # quick | thorough (set by the worker / the replay from the obligation record)
+
+
+def deep():
+    return TIER == "thorough"
 
 
 class Reach(AssertionError):
